@@ -1,6 +1,7 @@
 package props
 
 import (
+	"os"
 	"fmt"
 	"testing"
 
@@ -34,6 +35,8 @@ type dynGen struct {
 	feat   map[string]bool
 	// dynRate: 1-in-N block instances become dynamic
 	dynRate int
+	// clean: no deliberate ill-typing or spec violations, so that most cases decode without error
+	clean bool
 }
 
 func (g *dynGen) scopeWithIters() *gen.Scope {
@@ -65,7 +68,21 @@ func (g *dynGen) expr(ty cty.Type) ast.Node {
 	if rapid.IntRange(0, 2).Draw(t, "literal_attr") == 0 {
 		return literalOfType(t, ty)
 	}
-	eg := gen.NewEG(t, g.scopeWithIters(), gen.ExprOpts{IllTyped: 25, Budget: 6, MaxDepth: 2, NoHeredoc: true})
+	if g.clean {
+		if len(g.iters) > 0 && (ty == cty.String || ty == cty.DynamicPseudoType) && rapid.IntRange(0, 2).Draw(t, "use_iterator") != 0 {
+			it := g.iters[rapid.IntRange(0, len(g.iters)-1).Draw(t, "which_iter")]
+			if it.name != g.iters[len(g.iters)-1].name {
+				g.outer = true
+			}
+			// keys are strings or numbers: the template always converts
+			return ast.Template{Parts: []ast.TPart{ast.TLit{Text: "i:"}, ast.TInterp{X: ast.GetAttr{Obj: ast.Var{Name: it.name}, Name: "key"}}}}
+		}
+		if rapid.Bool().Draw(t, "clean_literal") {
+			return literalOfType(t, ty)
+		}
+		return gen.NewEG(t, g.scopeWithIters(), gen.ExprOpts{Budget: 5, MaxDepth: 2, NoHeredoc: true}).Expr(ty)
+	}
+	eg := gen.NewEG(t, g.scopeWithIters(), gen.ExprOpts{IllTyped: 8, Budget: 6, MaxDepth: 2, NoHeredoc: true})
 	if len(g.iters) > 0 && rapid.IntRange(0, 1).Draw(t, "use_iterator") == 0 {
 		// refer to an iterator directly so that substitution is exercised
 		it := g.iters[rapid.IntRange(0, len(g.iters)-1).Draw(t, "which_iter")]
@@ -91,8 +108,12 @@ func (g *dynGen) dyn(x *gen.SpecM, content func() *ast.Body) (ast.Item, bool) {
 	}
 	d := ast.Dyn{Type: x.Name}
 	// for_each: a scope collection, or a constructor of literals
-	eg := gen.NewEG(t, g.scopeWithIters(), gen.ExprOpts{IllTyped: 30, Budget: 6, MaxDepth: 2, NoHeredoc: true})
+	eg := gen.NewEG(t, g.scopeWithIters(), gen.ExprOpts{IllTyped: 10, Budget: 6, MaxDepth: 2, NoHeredoc: true})
 	fk := rapid.IntRange(0, 5).Draw(t, "for_each_kind")
+	if g.clean {
+		fk = fk % 2
+	}
+	single := g.clean && x.Kind == gen.SBlock
 	if len(g.iters) > 0 && rapid.IntRange(0, 2).Draw(t, "for_each_from_outer") == 0 {
 		fk = 6
 	}
@@ -101,13 +122,18 @@ func (g *dynGen) dyn(x *gen.SpecM, content func() *ast.Body) (ast.Item, bool) {
 		// the nested dynamic iterates over something derived from an enclosing iterator
 		outer := g.iters[rapid.IntRange(0, len(g.iters)-1).Draw(t, "outer")]
 		g.outer = true
-		if rapid.Bool().Draw(t, "outer_pair") {
+		if single {
+			d.ForEach = ast.Tuple{Elems: []ast.Node{ast.GetAttr{Obj: ast.Var{Name: outer.name}, Name: "key"}}}
+		} else if rapid.Bool().Draw(t, "outer_pair") || g.clean {
 			d.ForEach = ast.Tuple{Elems: []ast.Node{ast.GetAttr{Obj: ast.Var{Name: outer.name}, Name: "key"}, ast.GetAttr{Obj: ast.Var{Name: outer.name}, Name: "value"}}}
 		} else {
 			d.ForEach = ast.GetAttr{Obj: ast.Var{Name: outer.name}, Name: "value"}
 		}
 	case 0:
 		n := rapid.IntRange(0, 3).Draw(t, "n")
+		if single {
+			n = 1
+		}
 		var elems []ast.Node
 		for i := 0; i < n; i++ {
 			elems = append(elems, literalOfType(t, rapid.SampledFrom([]cty.Type{cty.String, cty.Number}).Draw(t, "ety")))
@@ -115,6 +141,9 @@ func (g *dynGen) dyn(x *gen.SpecM, content func() *ast.Body) (ast.Item, bool) {
 		d.ForEach = ast.Tuple{Elems: elems}
 	case 1:
 		n := rapid.IntRange(0, 3).Draw(t, "n")
+		if single {
+			n = 1
+		}
 		var items []ast.ObjItem
 		seen := map[string]bool{}
 		for i := 0; i < n; i++ {
@@ -129,13 +158,23 @@ func (g *dynGen) dyn(x *gen.SpecM, content func() *ast.Body) (ast.Item, bool) {
 	default:
 		d.ForEach = eg.Expr(rapid.SampledFrom([]cty.Type{cty.List(cty.String), cty.EmptyTuple, cty.Map(cty.String), cty.EmptyObject, cty.List(cty.Number)}).Draw(t, "fe_type"))
 	}
-	if rapid.IntRange(0, 2).Draw(t, "custom_iterator") == 0 {
+	switch ci := rapid.IntRange(0, 5).Draw(t, "custom_iterator"); {
+	case ci <= 1:
 		d.Iterator = rapid.SampledFrom([]string{"it", "each", "item", "e2"}).Draw(t, "iterator")
+		g.feat["custom_iterator"] = true
+	case ci == 2 && len(g.iters) > 0:
+		// the inner iterator takes the name of an enclosing one and must shadow it
+		d.Iterator = g.iters[rapid.IntRange(0, len(g.iters)-1).Draw(t, "shadowed")].name
 		g.feat["custom_iterator"] = true
 	}
 	name := d.Iterator
 	if name == "" {
 		name = d.Type
+	}
+	for _, it := range g.iters {
+		if it.name == name {
+			g.feat["shadows_outer_iterator"] = true
+		}
 	}
 	// a representative iterator object: the first element, if the reference can evaluate for_each
 	sample := cty.ObjectVal(map[string]cty.Value{"key": cty.StringVal("k"), "value": cty.StringVal("v")})
@@ -154,7 +193,11 @@ func (g *dynGen) dyn(x *gen.SpecM, content func() *ast.Body) (ast.Item, bool) {
 	if nl > 0 {
 		d.Labels = []ast.Node{}
 		for i := 0; i < nl; i++ {
-			switch rapid.IntRange(0, 2).Draw(t, "labelkind") {
+			lk := rapid.IntRange(0, 2).Draw(t, "labelkind")
+			if g.clean && i == nl-1 && lk == 0 && (x.Kind == gen.SBlockMap || x.Kind == gen.SBlockObject) {
+				lk = 2 // keyed blocks need distinct labels per iteration
+			}
+			switch lk {
 			case 0:
 				d.Labels = append(d.Labels, ast.Template{Parts: []ast.TPart{ast.TLit{Text: rapid.SampledFrom([]string{"a", "b", "x y", "l"}).Draw(t, "lbl")}}})
 			case 1:
@@ -169,6 +212,27 @@ func (g *dynGen) dyn(x *gen.SpecM, content func() *ast.Body) (ast.Item, bool) {
 	d.Content = content()
 	g.iters = g.iters[:len(g.iters)-1]
 	return d, true
+}
+
+// relaxCounts removes the block-count constraints of a spec tree, which the number of
+// iterations of a dynamic block would otherwise violate most of the time.
+func relaxCounts(s *gen.SpecM) {
+	if s == nil {
+		return
+	}
+	switch s.Kind {
+	case gen.SBlock, gen.SBlockList, gen.SBlockTuple, gen.SBlockSet, gen.SBlockMap, gen.SBlockObject, gen.SBlockAttrs:
+		s.MinItems, s.MaxItems, s.Required = 0, 0, false
+	}
+	relaxCounts(s.Nested)
+	relaxCounts(s.Primary)
+	relaxCounts(s.Default)
+	for _, f := range s.Fields {
+		relaxCounts(f)
+	}
+	for _, e := range s.Elems {
+		relaxCounts(e)
+	}
 }
 
 func staticSiblingOfDyn(b *ast.Body) bool {
@@ -200,18 +264,24 @@ func staticSiblingOfDyn(b *ast.Body) bool {
 func ctxFromScope(sc *gen.Scope) *hcl.EvalContext { return evalCtx(sc) }
 
 func TestC18_Expand(t *testing.T) {
-	hx.Run(t, "C18", "Expand", 20000,
-		"spec tree + body built from it in which 1-in-3 block instances are `dynamic` blocks (nested dynamics, custom iterator names, labels computed from the iterator, inner content referring to inner and outer iterators, dynamics interleaved with static blocks of the same type); for_each from scope collections of every iterable kind and from constructors, incl. empty, marked and (separate class) unknown; oracle = reference expander (ref.ExpandDyn: one block per element in iteration order with the iterator object bound) followed by the reference decoder, compared with hcldec.Decode(dynblock.Expand(body, ctx), spec, ctx) (RawEquals after deep unmarking, equal error flags); unknown for_each: result conforms to the implied type; and expansion under a context restricted to ExpandVariablesHCLDec gives the same result; non-trivial = a dynamic block with >=2 iterations next to a static block of its type, or a nested dynamic using an outer iterator; distinct by (spec dump, body dump)",
+	hx.Run(t, "C18", "Expand", 8000,
+		"spec tree + body built from it in which 1-in-2 block instances are `dynamic` blocks (nested dynamics, custom iterator names incl. an inner iterator shadowing an outer one; 2-in-3 cases in clean mode = no deliberate ill-typing, spec violations or count constraints, so that about half of all cases decode without error; labels computed from the iterator, inner content referring to inner and outer iterators, dynamics interleaved with static blocks of the same type); for_each from scope collections of every iterable kind and from constructors, incl. empty, marked and (separate class) unknown; oracle = reference expander (ref.ExpandDyn: one block per element in iteration order with the iterator object bound) followed by the reference decoder, compared with hcldec.Decode(dynblock.Expand(body, ctx), spec, ctx) (RawEquals after deep unmarking, equal error flags); unknown for_each: result conforms to the implied type; and expansion under a context restricted to ExpandVariablesHCLDec gives the same result; non-trivial = a dynamic block with >=2 iterations next to a static block of its type, or a nested dynamic using an outer iterator; distinct by (spec dump, body dump)",
 		func(c *hx.Case) {
 			t := c.T
 			sc := gen.DrawScope(t, gen.ScopeOpts{Nulls: 14})
-			ms := gen.DrawSpec(t, gen.SpecOpts{Depth: 3, AttrNames: specAttrPool, BlockTypes: specBlockPool})
-			c.Set("spec", ms.Dump())
+			ms := gen.DrawSpec(t, gen.SpecOpts{Depth: 3, AttrNames: specAttrPool, BlockTypes: specBlockPool, BlockBias: 30})
 			kinds := map[string]bool{}
 			specKinds(ms, kinds)
 			featClasses(c, "spec_", kinds)
-			g := &dynGen{t: t, sc: sc, feat: map[string]bool{}, dynRate: 2}
-			tree := gen.BodyFromSpec(t, ms, gen.BodyFromSpecOpts{Perturb: 40, Labels: []string{"a", "b", "x y", "l", "for"}, Expr: g.expr, Dyn: g.dyn})
+			g := &dynGen{t: t, sc: sc, feat: map[string]bool{}, dynRate: 2, clean: rapid.IntRange(0, 2).Draw(t, "clean") != 0}
+			perturb := 40
+			if g.clean {
+				c.Class("clean_mode")
+				perturb = 0
+				relaxCounts(ms)
+			}
+			c.Set("spec", ms.Dump())
+			tree := gen.BodyFromSpec(t, ms, gen.BodyFromSpecOpts{Perturb: perturb, Labels: []string{"a", "b", "x y", "l", "for"}, Expr: g.expr, Dyn: g.dyn})
 			dump := ast.DumpBody(tree)
 			c.Set("body", dump)
 			c.Set("scope", scopeDump(sc))
@@ -297,6 +367,14 @@ func TestC18_Expand(t *testing.T) {
 			c.Guard("Decode(Expand restricted)", func() { got2, gdiags2 = hcldec.Decode(dynblock.Expand(f.Body, restricted), spec, ctx) })
 			if gdiags2.HasErrors() != gdiags.HasErrors() || (!gdiags.HasErrors() && !got2.RawEquals(got)) {
 				c.Failf("expand-variables-insufficient", "expanding with only the variables reported by ExpandVariablesHCLDec {%s} gives %#v (err=%v: %s), with the full context %#v (err=%v)", setString(R), got2, gdiags2.HasErrors(), diagStr(gdiags2), got, gdiags.HasErrors())
+			}
+			if gdiags.HasErrors() && os.Getenv("VERIF_DEBUG_ERRS") != "" {
+				for _, d := range gdiags {
+					if d.Severity == hcl.DiagError {
+						c.Class("err_" + d.Summary)
+						break
+					}
+				}
 			}
 			if want.Err {
 				c.Class("reference_error")
